@@ -184,7 +184,8 @@ EvalTamper ==
 
 (* ciphertexts whose C1 is not (the encoding of) a point of the curve, and abuses of the DER form *)
 MalKinds == {"offcurve-u", "offcurve-asn1", "offcurve-c", "neg-u", "neg-c", "neg-asn1", "inf-raw", "zero-u", "zero-asn1",
-             "asn1-negx", "asn1-bigx", "asn1-c3short", "asn1-c2empty", "asn1-swapped", "empty", "c1c3-only"}
+             "asn1-negx", "asn1-bigx", "asn1-c3short", "asn1-c2empty", "asn1-swapped", "empty", "c1c3-only",
+             "invcurve-u", "invcurve-asn1"}
 NoSqrtX(x) == LET RECURSIVE F(_)
                   F(a) == IF S!Ec!Decompress(a, 0).ok THEN F(S!Ec!FAdd(a, <<1>>)) ELSE a
               IN F(S!Ec!FAdd(x, <<1>>))
@@ -209,6 +210,19 @@ Mal(kind) ==
        [] kind = "asn1-c3short"  -> D!Sm2Cipher(x, y, SubSeq(ct.c3, 1, 31), ct.c2)
        [] kind = "asn1-c2empty"  -> D!Sm2Cipher(x, y, ct.c3, <<>>)
        [] kind = "asn1-swapped"  -> D!Sm2Cipher(x, y, ct.c2, ct.c3)
+       [] kind \in {"invcurve-u", "invcurve-asn1"} ->
+            (* the invalid-curve ciphertext: C1' off the curve, C2 and C3 computed with [d]C1' by the same chord-and-tangent rule (which  *)
+            (* does not involve b), so that EVERY later test of 7.1 passes - only B1 (C1 on the curve) refuses it                       *)
+            LET c1 == <<x, y1>>
+                dC == S!Ec!Mul(KeyD(sc.key), c1)
+                x2 == S!F32(dC[1])
+                y2 == S!F32(dC[2])
+                t == S!Kd!KDF(x2 \o y2, Len(msg))
+                c2 == S!XorB(msg, t)
+                c3 == S!H!Hash(x2 \o msg \o y2)
+            IN IF dC = S!Ec!Inf THEN <<>>
+               ELSE IF kind = "invcurve-u" THEN <<4>> \o S!F32(x) \o S!F32(y1) \o c3 \o c2
+               ELSE D!Sm2Cipher(x, y1, c3, c2)
        [] kind = "empty"         -> <<>>
        [] OTHER                  -> <<4>> \o S!F32(x) \o S!F32(y) \o ct.c3            \* "c1c3-only": C2 missing
 Malformed(kind) ==
